@@ -456,7 +456,7 @@ class Machine:
         return h
 
     def _violate(self, kind, chain, entry, msg, node: Node | None, s, seen, g, pr, extra="") -> None:
-        if kind in ("double-dispatch", "double-consult", "write-after-close", "second-header", "half-response"):
+        if kind in ("double-dispatch", "double-consult", "dispatch-after-response", "write-after-close", "second-header", "half-response"):
             # the run is already broken beyond repair: continuations of this
             # state would only repeat the same report
             self._n_viol += 1
@@ -526,6 +526,12 @@ class Machine:
                 pending.add(e.info + "#2" if e.info in pending else e.info)
                 self.callbacks.add(e.info)
             elif e.kind == "dispatch":
+                if closed:
+                    self._violate(
+                        "dispatch-after-response", e.chain, entry,
+                        f"the {e.info}-handler is invoked after this connection was already answered and closed (e.g. by the timeout reply): the request takes effect although the client was told it failed",
+                        node, s, seen, g, pr, extra=e.info,
+                    )
                 ndisp += 1
                 if ndisp >= 2:
                     self._violate(
